@@ -7,5 +7,5 @@ From MV Require Import Bytes GenPath PathModel.
 Extraction Language OCaml.
 Extraction "model.ml"
   b2n n2b
-  path_is_secure path_is_accessible visited startup created_modes seed_of
+  path_is_secure path_is_accessible visited startup created_modes seed_of seed_after
   keyfile_check logfile_check seed_step created sock_recipe lock_recipe pid_recipe seed_recipe log_recipe.
